@@ -1,4 +1,4 @@
-CONSTANTS Shapes <- ShapesC20
+CONSTANTS Shapes <- Shapes2x2
 CONSTANTS ULs <- ULsDeep
 CONSTANTS TransposeCoord = FALSE
 CONSTANTS SwapStripIndex = FALSE
@@ -8,6 +8,7 @@ SPECIFICATION Spec
 INVARIANT Partition
 INVARIANT StripBijection
 INVARIANT CoordCentre
+INVARIANT StripIndexing
 INVARIANT PaintsInside
 INVARIANT Faithful
 INVARIANT ModelCovers
